@@ -42,6 +42,9 @@ type ChainCfg struct {
 	Inspection     string    `json:"inspection"` // true | test-f | grep
 	Require        bool      `json:"require"`
 	TwoInspections bool      `json:"two_inspections"`
+	Odd            bool      `json:"odd"`        // artifact names, strip prefix and exclude pattern with commas, spaces, '=', leading '-', quotes, non-ASCII
+	Names          []string  `json:"names"`      // artifact of step i (empty: f<i>.txt)
+	RerunStep      int       `json:"rerun_step"` // 1-based: this step is executed twice by the same functionary (0: none)
 }
 
 var stepNames = []string{"fetch", "build", "package", "test-1", "a.b", "a", "step_3", "X", "compile.it", "rel-2.0", "a.b.c"}
@@ -141,6 +144,12 @@ func (c ChainCfg) features() []string {
 	if c.Norm {
 		f = append(f, "normalize")
 	}
+	if c.Odd {
+		f = append(f, "odd-names")
+	}
+	if c.RerunStep > 0 {
+		f = append(f, "rerun")
+	}
 	return f
 }
 
@@ -150,7 +159,7 @@ func (c ChainCfg) honestClass() string {
 	k := "verify/honest"
 	for _, f := range c.features() {
 		switch f {
-		case "dsse-links", "dsse-layout", "2signers", "multiline", "cert", "intermediate":
+		case "dsse-links", "dsse-layout", "2signers", "multiline", "cert", "intermediate", "odd-names", "rerun":
 			k += "+" + f
 		}
 	}
@@ -190,6 +199,15 @@ func randomChain(r *lib.Rng) ChainCfg {
 			s.Keys = []string{r.Pick(poolKeys)}
 		}
 		c.Steps = append(c.Steps, s)
+	}
+	if r.Chance(1, 3) {
+		c.Odd = true
+		pool := append([]string{}, oddNamePool...)
+		r.Shuffle(len(pool), func(i, j int) { pool[i], pool[j] = pool[j], pool[i] })
+		c.Names = pool[:n]
+	}
+	if r.Chance(1, 2) {
+		c.RerunStep = r.Range(1, n)
 	}
 	a := r.Intn(len(poolKeys))
 	c.LayoutSigners = []string{poolKeys[a]}
@@ -240,6 +258,39 @@ func featuredChains(r *lib.Rng) []ChainCfg {
 			c.Steps = append(c.Steps, StepCfg{Name: "a.b", Method: "record", Keys: []string{"rsa3072"}, DSSE: true})
 			c.AbsPaths = true
 		}),
+		// the same step executed twice by the same functionary (the second link is the shorter document)
+		mk(func(c *ChainCfg) { c.RerunStep = 2 }),
+		mk(func(c *ChainCfg) { c.RerunStep = 1; c.Steps[0].Method = "record"; c.Steps[0].DSSE = true }),
+		mk(func(c *ChainCfg) { c.RerunStep = 2; c.Steps[1].Method = "record"; c.DirMode = true; c.MetaDir = false }),
+		mk(func(c *ChainCfg) {
+			c.RerunStep = 1
+			c.DirMode = true
+			c.Lstrip = true
+			c.Steps[0].DSSE = true
+			c.Steps[0].Multiline = true
+		}),
+		// names with commas, spaces, '=', leading '-', quotes, non-ASCII in paths, strip prefix and exclude pattern
+		mk(func(c *ChainCfg) { c.Odd = true; c.Names = []string{"a,b.txt", "-lead.txt"} }),
+		mk(func(c *ChainCfg) {
+			c.Odd = true
+			c.Names = []string{"out put=1.txt", "ünï,cødé.txt"}
+			c.Lstrip = true
+			c.Steps[1].Method = "record"
+		}),
+		mk(func(c *ChainCfg) {
+			c.Odd = true
+			c.Names = []string{"x=y,z w.txt", "q\"uo,te.txt"}
+			c.DirMode = true
+			c.Steps[0].Method = "record"
+		}),
+		mk(func(c *ChainCfg) {
+			c.Odd = true
+			c.Names = []string{"-lead.txt", "a,b.txt"}
+			c.DirMode = true
+			c.Lstrip = true
+			c.RerunStep = 2
+			c.Inspection = "grep"
+		}),
 	}
 }
 
@@ -262,6 +313,15 @@ func systematicChains(r *lib.Rng) []ChainCfg {
 								c.LayoutSigners = []string{"ed1", "ecdsa256"}
 							}
 							n := r.Range(1, 3)
+							if r.Bool() {
+								c.Odd = true
+								pool := append([]string{}, oddNamePool...)
+								r.Shuffle(len(pool), func(i, j int) { pool[i], pool[j] = pool[j], pool[i] })
+								c.Names = pool[:n]
+							}
+							if r.Bool() {
+								c.RerunStep = r.Range(1, n)
+							}
 							for i := 0; i < n; i++ {
 								s := StepCfg{Name: stepNames[(i*2+len(out))%len(stepNames)], Method: method, Keys: []string{kind},
 									DSSE: dsse != 0, Multiline: r.Bool()}
@@ -330,10 +390,11 @@ func newWorld(bin, workdir string, cfg ChainCfg) *world {
 	for _, d := range []string{"keys", "ws", "meta", "layouts"} {
 		os.MkdirAll(filepath.Join(root, d), 0o755)
 	}
+	w := &world{bin: bin, root: root, cfg: cfg, r: lib.NewRng(cfg.Seed), keys: map[string]*funcKey{}}
 	if cfg.Lstrip {
-		os.MkdirAll(filepath.Join(root, "ws", "proj"), 0o755)
+		os.MkdirAll(filepath.Join(root, "ws", w.projDir()), 0o755)
 	}
-	return &world{bin: bin, root: root, cfg: cfg, r: lib.NewRng(cfg.Seed), keys: map[string]*funcKey{}}
+	return w
 }
 
 func (w *world) rel(p string) string { return strings.ReplaceAll(p, w.root, "$ROOT") }
@@ -416,8 +477,8 @@ func (w *world) put(klass, what string, inv *Invocation, libRes, impl, oracle, c
 	in := caseInput{Chain: w.cfg, What: what, Invoke: inv, Lib: libRes}
 	if oracle != "" && impl != oracle {
 		in.History = append([]Invocation{}, w.history...)
-		switch klass {
-		case "run", "record-start", "record-stop", "sign", "link-name":
+		switch strings.TrimSuffix(klass, "/rerun") {
+		case "run", "record-start", "record-stop", "sign", "link-name", "link-artifacts":
 			w.broken = true
 		}
 	}
@@ -477,30 +538,76 @@ func (w *world) certKey(kind string, cn string) *funcKey {
 	return k
 }
 
-func fname(i int) string { return fmt.Sprintf("f%d.txt", i) }
+var oddNamePool = []string{"a,b.txt", "out put=1.txt", "-lead.txt", "ünï,cødé.txt", "x=y,z w.txt", "q\"uo,te.txt"}
+
+// fname: the artifact produced by step i (plain f<i>.txt, or a shell-safe odd name: comma, space, '=',
+// leading '-', quote, non-ASCII)
+func (w *world) fname(i int) string {
+	if i >= 1 && i <= len(w.cfg.Names) {
+		return w.cfg.Names[i-1]
+	}
+	return fmt.Sprintf("f%d.txt", i)
+}
+
+func (w *world) projDir() string {
+	if w.cfg.Odd {
+		return "pr,oj"
+	}
+	return "proj"
+}
+func (w *world) scratchName() string {
+	if w.cfg.Odd {
+		return "tmp,1.log"
+	}
+	return "tmp.log"
+}
+func (w *world) scratchPattern() string {
+	if w.cfg.Odd {
+		return "tmp,*"
+	}
+	return "tmp*"
+}
 
 func (w *world) prefix() string {
 	if w.cfg.Lstrip {
-		return "proj/"
+		return w.projDir() + "/"
 	}
 	return ""
 }
 
-func (w *world) stepCommand(i int, s StepCfg) string {
-	p := w.prefix()
+func shq(s string) string { return "'" + strings.ReplaceAll(s, "'", `'\''`) + "'" }
+
+// shPath: a file of the workspace as written in a shell command (./ so that a leading '-' is harmless)
+func (w *world) shPath(name string) string { return shq("./" + w.prefix() + name) }
+
+// stepCommand: what the step does. [noisy] is the first of two executions of the same step: it
+// prints more and leaves one more file, so that its link is longer than the one written afterwards.
+func (w *world) stepCommand(i int, s StepCfg, noisy bool) string {
 	var c string
 	if i == 1 {
-		c = fmt.Sprintf("printf 'alpha\\nbeta\\n' > %s%s", p, fname(1))
+		c = fmt.Sprintf("printf 'alpha\\nbeta\\n' > %s", w.shPath(w.fname(1)))
 	} else {
-		c = fmt.Sprintf("cat %s%s > %s%s; echo step%d >> %s%s", p, fname(i-1), p, fname(i), i, p, fname(i))
+		c = fmt.Sprintf("cat %s > %s; echo step%d >> %s", w.shPath(w.fname(i-1)), w.shPath(w.fname(i)), i, w.shPath(w.fname(i)))
 	}
 	if w.cfg.DirMode {
-		c += fmt.Sprintf("; echo scratch > %stmp.log", p)
+		c += fmt.Sprintf("; echo scratch > %s", w.shPath(w.scratchName()))
 	}
 	if s.Multiline {
 		c += "; echo line one; echo 'line \"two\"'; echo err one >&2; echo err two >&2"
 	}
+	if noisy {
+		c += "; i=0; while [ $i -lt 60 ]; do echo first execution, a lot more output $i; i=$((i+1)); done"
+	}
 	return c
+}
+
+// flag renders a repeatable list flag: `-p value`, or `--products=value` for odd values
+// (a value starting with '-' needs the = form)
+func (w *world) flag(short, long, value string) []string {
+	if w.cfg.Odd {
+		return []string{"--" + long + "=" + value}
+	}
+	return []string{"-" + short, value}
 }
 
 func (w *world) commonOpts(s StepCfg) []string {
@@ -512,10 +619,11 @@ func (w *world) commonOpts(s StepCfg) []string {
 		o = append(o, "-d", "../meta")
 	}
 	if w.cfg.Lstrip {
-		o = append(o, "-l", "proj/")
+		o = append(o, w.flag("l", "lstrip-paths", w.prefix())...)
 	}
 	if w.cfg.DirMode {
-		o = append(o, "-e", "*.link", "-e", ".*.link-unfinished", "-e", "tmp*")
+		o = append(o, "-e", "*.link", "-e", ".*.link-unfinished")
+		o = append(o, w.flag("e", "exclude", w.scratchPattern())...)
 	}
 	if w.cfg.Norm {
 		o = append(o, "--normalize-line-endings")
@@ -523,26 +631,73 @@ func (w *world) commonOpts(s StepCfg) []string {
 	return o
 }
 
+const firstRunExtra = "zz-first-run.txt"
+
 func (w *world) materialArgs(i int) []string {
 	if w.cfg.DirMode {
 		if w.cfg.Lstrip {
-			return []string{"-m", "proj"}
+			return w.flag("m", "materials", w.projDir())
 		}
 		return []string{"-m", "."}
 	}
 	if i == 1 {
 		return nil
 	}
-	return []string{"-m", w.prefix() + fname(i-1)}
+	return w.flag("m", "materials", w.prefix()+w.fname(i-1))
 }
-func (w *world) productArgs(i int) []string {
+func (w *world) productArgs(i int, noisy bool) []string {
 	if w.cfg.DirMode {
 		if w.cfg.Lstrip {
-			return []string{"-p", "proj"}
+			return w.flag("p", "products", w.projDir())
 		}
 		return []string{"-p", "."}
 	}
-	return []string{"-p", w.prefix() + fname(i)}
+	out := w.flag("p", "products", w.prefix()+w.fname(i))
+	if noisy {
+		out = append(out, w.flag("p", "products", w.prefix()+firstRunExtra)...)
+	}
+	return out
+}
+
+// expectedArtifacts: the names a link of step i must list (ground truth of the history)
+func (w *world) expectedArtifacts(i int, products, noisy bool) []string {
+	var out []string
+	if w.cfg.DirMode {
+		last := i - 1
+		if products {
+			last = i
+		}
+		for j := 1; j <= last; j++ {
+			out = append(out, w.fname(j))
+		}
+		if noisy {
+			out = append(out, firstRunExtra)
+		}
+	} else if products {
+		out = append(out, w.fname(i))
+		if noisy {
+			out = append(out, firstRunExtra)
+		}
+	} else if i > 1 {
+		out = append(out, w.fname(i-1))
+	}
+	sort.Strings(out)
+	return out
+}
+
+// linkArtifacts: what the written link lists (loaded in-process)
+func linkArtifacts(path string) string {
+	return lib.Recover(func() string {
+		mb, err := intoto.LoadMetadata(path)
+		if err != nil {
+			return "unloadable"
+		}
+		l, ok := mb.GetPayload().(intoto.Link)
+		if !ok {
+			return "not-a-link"
+		}
+		return fmt.Sprintf("materials=%q products=%q", lib.SortedKeys(l.Materials), lib.SortedKeys(l.Products))
+	})
 }
 
 func listDir(d string) map[string]bool {
@@ -606,23 +761,38 @@ func loaderFinds(dir, step, keyid string) bool {
 	return found
 }
 
-// runStep carries out one step through the CLI for one functionary key
-func (w *world) runStep(i int, s StepCfg, k *funcKey) {
+// runStep carries out one step through the CLI for one functionary key. [noisy]: this is the first
+// of two executions of the step by the same functionary into the same metadata directory (it prints
+// more and records one more product, so the second link is the shorter document); [rerun]: this is
+// the second one, overwriting the first link.
+func (w *world) runStep(i int, s StepCfg, k *funcKey, noisy, rerun bool) {
 	ws := filepath.Join(w.root, "ws")
 	kargs := []string{"-n", s.Name, "-k", k.keyFile}
 	if k.certFile != "" {
 		kargs = append(kargs, "-c", k.certFile)
 	}
+	tag := ""
+	if noisy {
+		tag = " (first execution)"
+		writeFile(filepath.Join(ws, filepath.FromSlash(w.prefix()), firstRunExtra), []byte("left over by the first execution\n"))
+	}
+	if rerun {
+		tag = " (second execution)"
+	}
+	sub := ""
+	if noisy || rerun {
+		sub = "/rerun"
+	}
 	before := listDir(w.linkDir)
-	cmdline := w.stepCommand(i, s)
+	cmdline := w.stepCommand(i, s, noisy)
 	if s.Method == "run" {
 		argv := append([]string{"run"}, kargs...)
 		argv = append(argv, w.materialArgs(i)...)
-		argv = append(argv, w.productArgs(i)...)
+		argv = append(argv, w.productArgs(i, noisy)...)
 		argv = append(argv, w.commonOpts(s)...)
 		argv = append(argv, "--", "sh", "-c", cmdline)
 		inv := w.cli(ws, argv...)
-		w.put("run", "run "+s.Name, &inv, "", "exit="+exitClass(inv.Exit), "exit=0", "")
+		w.put("run"+sub, "run "+s.Name+tag, &inv, "", "exit="+exitClass(inv.Exit), "exit=0", "")
 	} else {
 		argv := append([]string{"record", "start"}, kargs...)
 		argv = append(argv, w.materialArgs(i)...)
@@ -636,28 +806,42 @@ func (w *world) runStep(i int, s StepCfg, k *funcKey) {
 			kid8 = kid8[:8]
 		}
 		want := "." + s.Name + "." + kid8 + ".link-unfinished"
-		w.put("record-start", "record start "+s.Name, &inv, "", "exit="+exitClass(inv.Exit)+" file="+got, "exit=0 file="+want,
+		w.put("record-start"+sub, "record start "+s.Name+tag, &inv, "", "exit="+exitClass(inv.Exit)+" file="+got, "exit=0 file="+want,
 			fmt.Sprintf(`(bs "exit=0 file=" ++ prelim_link_name %s %s)`, lib.CoqStr(s.Name), lib.CoqStr(k.keyID)))
 		sh := exec.Command("sh", "-c", cmdline)
 		sh.Dir = ws
 		sh.Run()
 		argv = append([]string{"record", "stop"}, kargs...)
-		argv = append(argv, w.productArgs(i)...)
+		argv = append(argv, w.productArgs(i, noisy)...)
 		argv = append(argv, w.commonOpts(s)...)
 		inv = w.cli(ws, argv...)
 		_, still := listDir(w.linkDir)[want]
-		w.put("record-stop", "record stop "+s.Name, &inv, "", fmt.Sprintf("exit=%s prelim-removed=%s", exitClass(inv.Exit), tf(!still)), "exit=0 prelim-removed=T", "")
+		w.put("record-stop"+sub, "record stop "+s.Name+tag, &inv, "", fmt.Sprintf("exit=%s prelim-removed=%s", exitClass(inv.Exit), tf(!still)), "exit=0 prelim-removed=T", "")
 	}
 	after := listDir(w.linkDir)
+	want := expectedName(s.Name, k.keyID)
 	var links []string
 	for _, f := range newFiles(before, after) {
 		if strings.HasSuffix(f, ".link") {
 			links = append(links, f)
 		}
 	}
+	if rerun && len(links) == 0 && after[want] {
+		links = []string{want} // written over the link of the first execution
+	}
 	found := loaderFinds(w.linkDir, s.Name, k.keyID)
-	w.put("link-name", "link of "+s.Name+" by "+k.name, nil, "", "name="+strings.Join(links, ",")+" loader="+tf(found),
-		"name="+expectedName(s.Name, k.keyID)+" loader=T", coqNameObs(s.Name, k.keyID))
+	w.put("link-name"+sub, "link of "+s.Name+" by "+k.name+tag, nil, "", "name="+strings.Join(links, ",")+" loader="+tf(found),
+		"name="+want+" loader=T", coqNameObs(s.Name, k.keyID))
+	// the link lists exactly the named files
+	w.put("link-artifacts"+sub, "artifacts in the link of "+s.Name+" by "+k.name+tag, nil, "", linkArtifacts(filepath.Join(w.linkDir, want)),
+		fmt.Sprintf("materials=%q products=%q", w.expectedArtifacts(i, false, noisy), w.expectedArtifacts(i, true, noisy)), "")
+	if noisy {
+		// back to the state before the step: the second execution starts from the same materials
+		dir := filepath.Join(ws, filepath.FromSlash(w.prefix()))
+		os.Remove(filepath.Join(dir, firstRunExtra))
+		os.Remove(filepath.Join(dir, w.fname(i)))
+		os.Remove(filepath.Join(dir, w.scratchName()))
+	}
 }
 
 func rule(s ...string) []string { return s }
@@ -690,15 +874,15 @@ func (w *world) buildLayout(expires time.Time) intoto.Layout {
 		}
 		if i == 1 {
 			st.ExpectedMaterials = [][]string{rule("DISALLOW", "*")}
-			st.ExpectedProducts = [][]string{rule("CREATE", fname(1)), rule("DISALLOW", "*")}
+			st.ExpectedProducts = [][]string{rule("CREATE", w.fname(1)), rule("DISALLOW", "*")}
 		} else {
 			prev := cfg.Steps[idx-1].Name
 			if cfg.DirMode {
 				st.ExpectedMaterials = [][]string{rule("MATCH", "*", "WITH", "PRODUCTS", "FROM", prev), rule("DISALLOW", "*")}
-				st.ExpectedProducts = [][]string{rule("CREATE", fname(i)), rule("MATCH", "*", "WITH", "MATERIALS", "FROM", s.Name), rule("DISALLOW", "*")}
+				st.ExpectedProducts = [][]string{rule("CREATE", w.fname(i)), rule("MATCH", "*", "WITH", "MATERIALS", "FROM", s.Name), rule("DISALLOW", "*")}
 			} else {
-				st.ExpectedMaterials = [][]string{rule("MATCH", fname(i-1), "WITH", "PRODUCTS", "FROM", prev), rule("DISALLOW", "*")}
-				st.ExpectedProducts = [][]string{rule("CREATE", fname(i)), rule("DISALLOW", "*")}
+				st.ExpectedMaterials = [][]string{rule("MATCH", w.fname(i-1), "WITH", "PRODUCTS", "FROM", prev), rule("DISALLOW", "*")}
+				st.ExpectedProducts = [][]string{rule("CREATE", w.fname(i)), rule("DISALLOW", "*")}
 			}
 		}
 		st.ExpectedCommand = []string{}
@@ -710,20 +894,20 @@ func (w *world) buildLayout(expires time.Time) intoto.Layout {
 		in.Name = name
 		switch cfg.Inspection {
 		case "test-f":
-			in.Run = []string{"test", "-f", fname(n)}
+			in.Run = []string{"test", "-f", w.fname(n)}
 		case "grep":
-			in.Run = []string{"grep", "-q", "alpha", fname(n)}
+			in.Run = []string{"grep", "-q", "-e", "alpha", "--", w.fname(n)}
 		default:
 			in.Run = []string{"sh", "-c", "true"}
 		}
 		var m [][]string
 		if cfg.Require {
-			m = append(m, rule("REQUIRE", fname(n)))
+			m = append(m, rule("REQUIRE", w.fname(n)))
 		}
 		if cfg.DirMode {
 			m = append(m, rule("MATCH", "*", "WITH", "PRODUCTS", "FROM", last))
 		} else {
-			m = append(m, rule("MATCH", fname(n), "WITH", "PRODUCTS", "FROM", last))
+			m = append(m, rule("MATCH", w.fname(n), "WITH", "PRODUCTS", "FROM", last))
 		}
 		m = append(m, rule("ALLOW", "*.link"), rule("DISALLOW", "*"))
 		in.ExpectedMaterials = m
@@ -765,11 +949,19 @@ func dumpUnsigned(l intoto.Layout, dsse bool, path string) error {
 
 // signLayout: dump unsigned with the library, then `in-toto sign` once per signer
 func (w *world) signLayout(l intoto.Layout, name string, signers []string) string {
+	return w.signLayoutOver(l, name, signers, nil)
+}
+
+// signLayoutOver: as signLayout, but the output file of `sign -o` already exists with content [existing]
+func (w *world) signLayoutOver(l intoto.Layout, name string, signers []string, existing []byte) string {
 	dir := filepath.Join(w.root, "layouts")
 	unsigned := filepath.Join(dir, name+".unsigned.layout")
 	signed := filepath.Join(dir, name+".layout")
 	if err := dumpUnsigned(l, w.cfg.LayoutDSSE, unsigned); err != nil {
 		panic(err)
+	}
+	if existing != nil {
+		writeFile(signed, existing)
 	}
 	for i, s := range signers {
 		k := w.poolKey(s)
@@ -783,7 +975,25 @@ func (w *world) signLayout(l intoto.Layout, name string, signers []string) strin
 		if i > 0 {
 			what = "add second signature"
 		}
-		w.put("sign", what+" ("+name+")", &inv, "", "exit="+exitClass(inv.Exit), "exit=0", "")
+		klass := "sign"
+		if existing != nil {
+			klass = "sign/over-existing-file"
+		}
+		w.put(klass, what+" ("+name+")", &inv, "", "exit="+exitClass(inv.Exit), "exit=0", "")
+	}
+	if existing != nil {
+		// what `sign -o` leaves behind is a loadable layout
+		obs := lib.Recover(func() string {
+			mb, err := intoto.LoadMetadata(signed)
+			if err != nil {
+				return "unloadable"
+			}
+			if _, ok := mb.GetPayload().(intoto.Layout); !ok {
+				return "not-a-layout"
+			}
+			return fmt.Sprintf("loadable signatures=%d", len(mb.Sigs()))
+		})
+		w.put("sign/over-existing-file", "file written by sign -o ("+name+")", nil, "", obs, fmt.Sprintf("loadable signatures=%d", len(signers)), "")
 	}
 	return signed
 }
@@ -822,10 +1032,29 @@ func (w *world) runAll() (cases []lib.Case) {
 	} else {
 		w.linkDir = filepath.Join(w.root, "ws")
 	}
+	if cfg.Odd && !cfg.DirMode {
+		// decoys: the pieces a comma-separated reading of the names would pick up
+		for _, nm := range cfg.Names {
+			if !strings.Contains(nm, ",") {
+				continue
+			}
+			for _, piece := range strings.Split(nm, ",") {
+				p := filepath.Join(w.root, "ws", filepath.FromSlash(w.prefix()), piece)
+				if _, err := os.Stat(p); err != nil {
+					writeFile(p, []byte("decoy\n"))
+				}
+			}
+		}
+	}
 	// 1. the steps
 	for idx, s := range cfg.Steps {
-		for _, kn := range s.Keys {
-			w.runStep(idx+1, s, w.stepKey(idx, kn))
+		for j, kn := range s.Keys {
+			if cfg.RerunStep == idx+1 && j == 0 {
+				w.runStep(idx+1, s, w.stepKey(idx, kn), true, false)
+				w.runStep(idx+1, s, w.stepKey(idx, kn), false, true)
+			} else {
+				w.runStep(idx+1, s, w.stepKey(idx, kn), false, false)
+			}
 		}
 	}
 	// 2. the layout, signed through the CLI
@@ -847,14 +1076,14 @@ func (w *world) runAll() (cases []lib.Case) {
 		first = 1
 	}
 	for i := first; i <= n; i++ {
-		b, err := os.ReadFile(filepath.Join(src, fname(i)))
+		b, err := os.ReadFile(filepath.Join(src, w.fname(i)))
 		if err != nil {
 			continue
 		}
 		if cfg.Norm {
 			b = bytes.ReplaceAll(b, []byte("\n"), []byte("\r\n"))
 		}
-		writeFile(filepath.Join(final, fname(i)), b)
+		writeFile(filepath.Join(final, w.fname(i)), b)
 	}
 	links := filepath.Join(w.root, "links")
 	os.MkdirAll(links, 0o755)
